@@ -394,6 +394,10 @@ def run_tamper(case) -> CaseResult:
             labels.append('mac:' + mac)
         if d_before:
             labels.append('data-before-tamper')
+        if len(recs[j]) >= 4096:
+            labels.append('record>=4096')
+        if len(recs[j]) >= 32768:
+            labels.append('record>=32768')
         key = [enc, mac if not aead else '', comp, direction, t['kind'],
                region, 'first' if j == 0 else 'last' if j == len(recs) - 1
                else 'mid']
@@ -478,6 +482,18 @@ def grid(tier: str):
                                    'eof': True, 'rec': rec, 'tamper': t,
                                    'pre': 12 if t['kind'] == 'reflect'
                                    else 0}
+
+                    # large records (an implementation may treat them on
+                    # another code path): 5000 and 32768 bytes of data
+                    for t in tampers:
+                        if t['kind'] != 'flip' or t['region'] == 'len':
+                            continue
+                        # (records: IGNORE, DATA 5000, IGNORE, DATA 32768)
+                        for rec in (1, 3):
+                            yield {'enc': enc, 'mac': mac, 'comp': comp,
+                                   'dir': d, 'writes': [5000, 32768],
+                                   'eof': False, 'rec': rec, 'tamper': t,
+                                   'pre': 0, 'large': True}
 
 
 # --------------------------------------------------------------- setup ----
@@ -627,5 +643,6 @@ FAMILIES = [
     Family('setup', run_setup, strategy=setup_strategy,
            budget={'quick': 600, 'thorough': 6000}, case_timeout=120),
     Family('grid', run_tamper, enumerate=grid, exhaustive=True,
+           required={'all': ['record>=4096', 'record>=32768']},
            case_timeout=120),
 ]
